@@ -85,7 +85,7 @@ func runVariants(prop, repo, verif string) []variantResult {
 	}
 	defer os.RemoveAll(tmp)
 	results := make([]variantResult, len(specs)+len(patches))
-	sem := make(chan struct{}, 5)
+	sem := make(chan struct{}, 8)
 	var wg sync.WaitGroup
 	for i, pv := range patches {
 		i, pv := i, pv
